@@ -564,7 +564,7 @@ func init() {
 		Assume: []string{"math/big rational arithmetic is exact", "ordinates are zero or within [1e-100,1e100] as the property states"},
 		Classes: []fw.Class{
 			{Name: "grid7", Quick: 117649, Thorough: 117649, Run: c10Grid, Exhaustive: "every ordered triple of points of a 7x7 integer grid, all 6 argument orders"},
-			{Name: "near-collinear", Quick: 15000, Thorough: 1600000, Run: c10Near},
+			{Name: "near-collinear", Quick: 150000, Thorough: 2400000, Run: c10Near},
 			{Name: "wide-span", Quick: 40000, Thorough: 8000000, Run: c10Wide},
 			{Name: "lattice26", Quick: 40000, Thorough: 8000000, Run: c10Lattice26},
 			{Name: "bigint", Quick: 40000, Thorough: 8000000, Run: c10Big},
